@@ -370,15 +370,34 @@ pub fn cases(thorough: bool) -> Vec<Case> {
     cs
 }
 
-pub fn run(reg: &dyn Registry, ctx: &Ctx) -> Outcome {
-    let thorough = ctx.tier == Tier::Thorough;
-    ctx.assume("failure conditions are computed from the readings on the documented schedule (1 priming reading + 4 per probe); the schedule itself is confirmed on every run (readings consumed) and is C12's statement");
-    ctx.assume("mean = floor(sum of |delta_i - delta_(i-1)| / 300) over the 300 counted probes with delta_99 := 0 (the crate's convention), differences taken exactly (no wrap-around)");
-    let cs = cases(thorough);
-    ctx.set("states", cs.len() as u64);
-    let results: Vec<(String, String)> = cs
-        .par_iter()
-        .map(|c| {
+/// Result of one script on the real code against the oracle computed from the statement.
+#[derive(Default)]
+pub struct CaseOutcome {
+    pub verdict: String,
+    pub violation: Option<(String, String)>,
+    pub consumed: u64,
+    pub schedule_mismatch: bool,
+}
+
+pub fn case_replay_json(c: &Case) -> serde_json::Value {
+    json!({"kind":"jitter-test-timer","label":c.label,"before":c.before,"probe_differences":c.probes.iter().map(|p| p.d).collect::<Vec<_>>(),"zero_time":c.probes.iter().enumerate().filter(|(_,p)| p.zero_time).map(|(i,_)| i).collect::<Vec<_>>(),"zero_time2":c.probes.iter().enumerate().filter(|(_,p)| p.zero_time2).map(|(i,_)| i).collect::<Vec<_>>()})
+}
+
+pub fn case_from_json(r: &serde_json::Value) -> Option<Case> {
+    let d: Vec<i64> = r.get("probe_differences")?.as_array()?.iter().filter_map(|x| x.as_i64()).collect();
+    let mut probes: Vec<Probe> = d.into_iter().map(Probe::d).collect();
+    for i in r.get("zero_time").and_then(|a| a.as_array()).map(|a| a.iter().filter_map(|x| x.as_u64()).collect::<Vec<_>>()).unwrap_or_default() {
+        probes.get_mut(i as usize)?.zero_time = true;
+    }
+    for i in r.get("zero_time2").and_then(|a| a.as_array()).map(|a| a.iter().filter_map(|x| x.as_u64()).collect::<Vec<_>>()).unwrap_or_default() {
+        probes.get_mut(i as usize)?.zero_time2 = true;
+    }
+    Some(Case { before: r.get("before").and_then(|b| b.as_u64()).unwrap_or(0) as u8, label: r.get("label").and_then(|l| l.as_str()).unwrap_or("replayed script").to_string(), probes })
+}
+
+pub fn eval_case(reg: &dyn Registry, c: &Case) -> CaseOutcome {
+    let mut out = CaseOutcome::default();
+
             let own = build(&c.probes);
             let f = facts(&own);
             // what happened before on this generator
@@ -410,8 +429,7 @@ pub fn run(reg: &dyn Registry, ctx: &Ctx) -> Outcome {
             }
             let r = guarded(|| g.jitter().unwrap().test_timer());
             let consumed = script.consumed() - prefix_len;
-            ctx.add("transitions", consumed as u64);
-            let replay = || json!({"kind":"jitter-test-timer","label":c.label,"probe_differences":c.probes.iter().map(|p| p.d).collect::<Vec<_>>(),"zero_time":c.probes.iter().enumerate().filter(|(_,p)| p.zero_time).map(|(i,_)| i).collect::<Vec<_>>(),"zero_time2":c.probes.iter().enumerate().filter(|(_,p)| p.zero_time2).map(|(i,_)| i).collect::<Vec<_>>(),"facts":format!("{:?}", f)});
+            out.consumed = consumed as u64;
             let verdict: String;
             match r {
                 Err(o) => {
@@ -420,7 +438,7 @@ pub fn run(reg: &dyn Registry, ctx: &Ctx) -> Outcome {
                         Obs::Panic(m) => m,
                         o => format!("{:?}", o),
                     };
-                    ctx.violation("C13:panic", &format!("test_timer panicked on script {}: {}", c.label, what), replay());
+                    out.violation = Some(("C13:panic".to_string(), format!("test_timer panicked on script {}: {}", c.label, what)));
                 }
                 Ok(res) => {
                     verdict = format!("{:?}", res);
@@ -431,38 +449,71 @@ pub fn run(reg: &dyn Registry, ctx: &Ctx) -> Outcome {
                     };
                     let early_ok = matches!(res, TimerResult::NoTimer | TimerResult::CoarseTimer);
                     if consumed != expect_consumed && !(early_ok && consumed == 1601) {
-                        ctx.add("schedule_mismatches", 1);
+                        out.schedule_mismatch = true;
                     }
                     match res {
                         TimerResult::Ok(r) => {
                             if f.any() {
-                                ctx.violation(
-                                    &format!("C13:ok-despite-failure:{}", if f.mean < 2 { "tiny" } else if f.backwards > 3 { "backwards" } else if f.zero_reading { "zero-reading" } else if f.zero_delta { "zero-delta" } else if f.stuck > 270 { "stuck" } else { "mod100" }),
-                                    &format!("test_timer returned Ok({}) on script {} although a documented failure condition holds: {:?}", r, c.label, f),
-                                    replay(),
-                                );
+                                out.violation = Some((
+                                    format!("C13:ok-despite-failure:{}", if f.mean < 2 { "tiny" } else if f.backwards > 3 { "backwards" } else if f.zero_reading { "zero-reading" } else if f.zero_delta { "zero-delta" } else if f.stuck > 270 { "stuck" } else { "mod100" }),
+                                    format!("test_timer returned Ok({}) on script {} although a documented failure condition holds: {:?}", r, c.label, f),
+                                ));
                             } else if r == 0 || r > 128 || (r as u64) * (bitlen(f.mean) as u64) < 128 {
-                                ctx.violation(
-                                    if r == 0 { "C13:ok-zero-rounds" } else { "C13:ok-too-few-rounds" },
-                                    &format!("test_timer returned Ok({}) on script {} (mean delta variation {}, bitlen {}): r * bitlen(mean) = {} < 128 or r outside 1..=128", r, c.label, f.mean, bitlen(f.mean), r as u64 * bitlen(f.mean) as u64),
-                                    replay(),
-                                );
+                                out.violation = Some((
+                                    (if r == 0 { "C13:ok-zero-rounds" } else { "C13:ok-too-few-rounds" }).to_string(),
+                                    format!("test_timer returned Ok({}) on script {} (mean delta variation {}, bitlen {}): r * bitlen(mean) = {} < 128 or r outside 1..=128", r, c.label, f.mean, bitlen(f.mean), r as u64 * bitlen(f.mean) as u64),
+                                ));
                             } else {
                                 let rr = r;
                                 if guarded(|| g.jitter().unwrap().set_rounds(rr)).is_err() {
-                                    ctx.violation("C13:ok-zero-rounds", &format!("set_rounds(test_timer()?) panicked for Ok({}) on script {}", r, c.label), replay());
+                                    out.violation = Some(("C13:ok-zero-rounds".to_string(), format!("set_rounds(test_timer()?) panicked for Ok({}) on script {}", r, c.label)));
                                 }
                             }
                         }
                         e => {
+                            // the printed form of the error names a condition too: if it contains the name of a
+                            // documented condition, one of the conditions it names must hold (a text that names none
+                            // is not judged)
+                            if let Some(text) = g.jitter().unwrap().last_timer_error_display() {
+                                let lower = text.to_lowercase();
+                                let named: Vec<TimerResult> = [("no timer", TimerResult::NoTimer), ("coarse", TimerResult::CoarseTimer), ("monotonic", TimerResult::NotMonotonic), ("variation", TimerResult::TinyVariations), ("stuck", TimerResult::TooManyStuck)]
+                                    .into_iter()
+                                    .filter(|(k, _)| lower.contains(k))
+                                    .map(|(_, v)| v)
+                                    .collect();
+                                if !named.is_empty() && !named.iter().any(|v| f.holds(v)) {
+                                    out.violation = Some((format!("C13:error-text-names-wrong-condition:{:?}", e), format!("test_timer returned Err({:?}) on script {}, printed as {:?}, which names a condition that does not hold: {:?}", e, c.label, text, f)));
+                                }
+                            }
                             if !f.holds(&e) {
-                                ctx.violation(&format!("C13:error-does-not-hold:{:?}", e), &format!("test_timer returned Err({:?}) on script {}, but that condition does not hold: {:?}", e, c.label, f), replay());
+                                out.violation = Some((format!("C13:error-does-not-hold:{:?}", e), format!("test_timer returned Err({:?}) on script {}, but that condition does not hold: {:?}", e, c.label, f)));
                             }
                         }
                     }
                 }
             }
-            (verdict, c.label.clone())
+    out.verdict = verdict;
+    out
+}
+
+pub fn run(reg: &dyn Registry, ctx: &Ctx) -> Outcome {
+    let thorough = ctx.tier == Tier::Thorough;
+    ctx.assume("failure conditions are computed from the readings on the documented schedule (1 priming reading + 4 per probe); the schedule itself is confirmed on every run (readings consumed) and is C12's statement");
+    ctx.assume("mean = floor(sum of |delta_i - delta_(i-1)| / 300) over the 300 counted probes with delta_99 := 0 (the crate's convention), differences taken exactly (no wrap-around)");
+    let cs = cases(thorough);
+    ctx.set("states", cs.len() as u64);
+    let results: Vec<(String, String)> = cs
+        .par_iter()
+        .map(|c| {
+            let o = eval_case(reg, c);
+            ctx.add("transitions", o.consumed);
+            if o.schedule_mismatch {
+                ctx.add("schedule_mismatches", 1);
+            }
+            if let Some((key, what)) = o.violation {
+                ctx.violation(&key, &what, case_replay_json(c));
+            }
+            (o.verdict, c.label.clone())
         })
         .collect();
     let mut per: BTreeMap<String, (u64, String)> = BTreeMap::new();
